@@ -87,6 +87,7 @@ PROPS["C10"] = dict(
     trusted_base=[
         "ownership model coq/C10/Model.v of inmem/src/index.rs (SimpleTermIndex: t2i keys own string allocations, i2t entries point into them or, for quoted triples, own deep copies), of Clone (derived vs rebuilt), Drop, moves and growth (hand-written)",
         "hook SimpleTermIndex::verif_audit / verif_term_index (cfg sophia_verif) reports, per index, whether i2t[i] borrows from the key mapped to i; the harness compares it with the model's audit",
+        "hook SimpleTermIndex::verif_strings (cfg sophia_verif) reports address, length and ownership of every string of the keys and of the index table; the harness checks after every step that every key owns its strings, that the key strings of two live stores never overlap and that every borrowed table string lies inside a key of the same store; it also calls get_term with indices that were never handed out (must panic)",
         "thorough tier additionally runs fixed clone/drop/insert scenarios under Miri (harness/src/bin/c10_miri.rs) as a correspondence aid",
         "NOT covered: undefined behaviour outside this ownership model (std collections, unwrap_unchecked in the iterators, allocator behaviour); the model says which memory is read, a sanitizer would be needed to observe the read itself",
     ],
